@@ -605,6 +605,8 @@ func step(f func()) bool {
 	return done
 }
 
+var lifecycleQuick = true
+
 func lifecycle() {
 	calls := []string{"Suspend", "Resume", "SetSize", "SetSizeSame", "Fini"}
 	var seqs [][]int
@@ -621,60 +623,85 @@ func lifecycle() {
 		}
 	}
 	gen(nil)
-	for _, sq := range seqs {
-		s, _ := tcell.NewTerminfoScreen()
-		if err := s.Init(); err != nil {
-			violate("init", err.Error())
-			return
-		}
-		var names []string
-		ok := true
-		size := 0
-		for _, c := range sq {
-			names = append(names, calls[c])
-			returned := step(func() {
-				switch calls[c] {
-				case "Suspend":
-					_ = s.Suspend()
-				case "Resume":
-					_ = s.Resume()
-				case "SetSize":
-					size++
-					s.SetSize(60+size, 20+size)
-				case "SetSizeSame":
-					w, h := 80, 24
-					if size > 0 {
-						w, h = 60+size, 20+size
-					}
-					s.SetSize(w, h)
-				case "Fini":
-					s.Fini()
-				}
-			})
-			if !returned {
-				violate("lifecycle:call-blocked:"+calls[c], fmt.Sprintf("in the sequence %s the call %s never returned (all goroutines would be asleep)", strings.Join(names, ","), calls[c]))
-				ok = false
-				break
-			}
-			probe := step(func() { s.Size() })
-			if !probe {
-				violate("lifecycle:screen-wedged-after:"+calls[c], fmt.Sprintf("after the sequence %s a Size() call blocks forever (screen lock left held)", strings.Join(names, ",")))
-				ok = false
-				break
-			}
-			// drain resize events so that SetSize cannot block on a full queue
-			for s.HasPendingEvent() {
-				s.PollEvent()
-			}
-		}
-		if ok {
-			step(func() { s.Fini() })
-		}
-		rep.Evaluations++
-		rep.Distinct++
-		rep.Counters["lifecycle_sequences"]++
+	// application state that Resume re-applies: none, each mode alone, everything
+	configs := []struct {
+		name string
+		f    func(s tcell.Screen)
+	}{
+		{"plain", func(s tcell.Screen) {}},
+		{"EnablePaste", func(s tcell.Screen) { s.EnablePaste() }},
+		{"EnableMouse", func(s tcell.Screen) { s.EnableMouse() }},
+		{"EnableFocus", func(s tcell.Screen) { s.EnableFocus() }},
+		{"paste+mouse+focus+cursor+title", func(s tcell.Screen) {
+			s.EnablePaste()
+			s.EnableMouse(tcell.MouseMotionEvents)
+			s.EnableFocus()
+			s.ShowCursor(1, 1)
+			s.SetCursorStyle(tcell.CursorStyleSteadyBar)
+			s.SetTitle("t")
+		}},
 	}
-	rep.Samples = append(rep.Samples, map[string]any{"kind": "lifecycle", "sequences": len(seqs), "example": "Suspend,Resume,SetSize,Fini"})
+	for ci, cfg := range configs {
+		for qi, sq := range seqs {
+			if lifecycleQuick && ci != 0 && ci != len(configs)-1 && qi%5 != ci {
+				continue // quick: every sequence plain and with everything enabled, a fifth with each single mode
+			}
+			s, _ := tcell.NewTerminfoScreen()
+			if err := s.Init(); err != nil {
+				violate("init", err.Error())
+				return
+			}
+			cfg.f(s)
+			var names []string
+			names = append(names, "["+cfg.name+"]")
+			ok := true
+			size := 0
+			for _, c := range sq {
+				names = append(names, calls[c])
+				returned := step(func() {
+					switch calls[c] {
+					case "Suspend":
+						_ = s.Suspend()
+					case "Resume":
+						_ = s.Resume()
+					case "SetSize":
+						size++
+						s.SetSize(60+size, 20+size)
+					case "SetSizeSame":
+						w, h := 80, 24
+						if size > 0 {
+							w, h = 60+size, 20+size
+						}
+						s.SetSize(w, h)
+					case "Fini":
+						s.Fini()
+					}
+				})
+				if !returned {
+					violate("lifecycle:call-blocked:"+calls[c], fmt.Sprintf("in the sequence %s the call %s never returned (all goroutines would be asleep)", strings.Join(names, ","), calls[c]))
+					ok = false
+					break
+				}
+				probe := step(func() { s.Size() })
+				if !probe {
+					violate("lifecycle:screen-wedged-after:"+calls[c], fmt.Sprintf("after the sequence %s a Size() call blocks forever (screen lock left held)", strings.Join(names, ",")))
+					ok = false
+					break
+				}
+				// drain resize events so that SetSize cannot block on a full queue
+				for s.HasPendingEvent() {
+					s.PollEvent()
+				}
+			}
+			if ok {
+				step(func() { s.Fini() })
+			}
+			rep.Evaluations++
+			rep.Distinct++
+			rep.Counters["lifecycle_sequences"]++
+		}
+	}
+	rep.Samples = append(rep.Samples, map[string]any{"kind": "lifecycle", "sequences": len(seqs), "configurations": len(configs), "example": "[EnablePaste] Suspend,Resume,SetSize,Fini"})
 }
 
 func main() {
@@ -691,6 +718,7 @@ func main() {
 	nh := 60
 	if tier == "thorough" {
 		nh = 3000
+		lifecycleQuick = false
 	}
 	// part p of n: every js.FuncOf of a screen stays referenced, so a long run is split
 	// over several processes (part 0 also runs the lifecycle and callback sweeps)
